@@ -87,4 +87,56 @@ def restart (c : Cfg) (n : Node) (d : Disk) : Option Node :=
   | .error _ => none
   | .ok (p, _) => some { n with prod := p, q := Queue.reload { mem := [], disk := d.qdisk }, seen := d.seen }
 
+/-! ## histories: operations of the node, with a crash after any number of the durable writes of the last operation
+
+The state of a history remembers the durable image before the last operation and the durable writes of the last
+operation, in order; `crash k` = the process dies when only the first `k` of them have reached the disk and is
+restarted on that image; `restart` = a clean restart (all of them are durable).  The driver (`Drv/Flow.lean`)
+executes exactly these definitions against the real reaper / sequencer / producer. -/
+
+inductive Op
+  | mempool (txs : List Bytes)     -- what the execution layer's `GetTxs` answers from now on
+  | reap                           -- one `Reaper.SubmitTxs`
+  | produce                        -- one `publishBlock`
+  | restart
+  | crash (k : Nat)
+  deriving Repr, Inhabited
+
+structure RunSt where
+  n : Node := {}
+  before : Disk := {}
+  ws : List FW := []
+  mempool : List Bytes := []
+  deriving Inhabited
+
+/-- the durable image when the first `k` writes of the last operation have been applied -/
+def image (s : RunSt) (k : Nat) : Disk := (s.ws.take k).foldl Disk.apply s.before
+
+/-- restart on the image after the first `k` writes of the last operation -/
+def recover (c : Cfg) (s : RunSt) (k : Nat) : Option RunSt :=
+  match restart c s.n (image s k) with
+  | none => none
+  | some n' => some { s with n := n', before := image s k, ws := [] }
+
+/-- one operation; `none` = the node did not come up again -/
+def opStep (c : Cfg) (s : RunSt) : Op → Option RunSt
+  | .mempool txs => some { s with mempool := txs }
+  | .reap => some { s with n := (reap c s.n s.mempool).1, before := diskOf s.n, ws := (reap c s.n s.mempool).2 }
+  | .produce => some { s with n := (produce c s.n).1, before := diskOf s.n, ws := (produce c s.n).2.1 }
+  | .restart => recover c s s.ws.length
+  | .crash k => recover c s k
+
+/-- first start on an empty disk -/
+def initSt (c : Cfg) : Option RunSt :=
+  match Producer.start c.p {} with
+  | .error _ => none
+  | .ok (p, _) => some { n := { prod := p }, before := diskOf { prod := p } }
+
+def runOps (c : Cfg) : RunSt → List Op → Option RunSt
+  | s, [] => some s
+  | s, op :: rest =>
+    match opStep c s op with
+    | none => none
+    | some s' => runOps c s' rest
+
 end Flow
